@@ -142,3 +142,7 @@ Fixpoint call_ids (log : list event) : list nat :=
   | CallEnq _ id _ :: older => call_ids older ++ [id]
   | _ :: older => call_ids older
   end.
+
+(* events that are neither a linearization event nor an observation of emptiness *)
+Definition lin_free (e : event) : Prop :=
+  match e with LinEnq _ _ _ | LinDeq _ _ _ | EmptyAt _ => False | _ => True end.
